@@ -29,6 +29,8 @@ pub struct Config {
     pub eq: &'static str,
     /// what `mem::take` leaves behind (the Default of the places it is used on)
     pub take_default: &'static str,
+    /// how a variable is rendered by `format!` / Display when it is not a string: variable -> Gallina template (`{v}`)
+    pub display: Vec<(&'static str, &'static str)>,
 }
 
 pub struct Tr<'c> {
@@ -49,6 +51,12 @@ fn sanitize(id: &str) -> String {
         "end" | "in" | "at" | "as" | "fix" | "fun" | "let" | "match" | "with" | "then" | "else" | "if" | "return" | "where" | "using" | "type" => format!("{id}_"),
         _ => id.to_string(),
     }
+}
+
+/// Gallina `list N` literal for a string
+pub fn bytes_lit(st: &str) -> String {
+    let parts: Vec<String> = st.as_bytes().iter().map(|b| b.to_string()).collect();
+    if parts.is_empty() { "(@nil N)".to_string() } else { format!("[{}]", parts.join("; ")) }
 }
 
 /// `x`, `self.f`, `self.f.g` (also behind `&`, `&mut`, `*`, parentheses) -> flat variable name
@@ -158,6 +166,23 @@ impl<'c> Tr<'c> {
                     None => self.miss(format!("call of `{f}`")),
                 }
             }
+            Expr::Match(m) => {
+                // a match used as a value: every arm is an expression
+                let scrut = self.expr(&m.expr);
+                let mut arms = String::new();
+                for a in &m.arms {
+                    let pat = self.value_pattern(&a.pat);
+                    let body = self.expr(&a.body);
+                    arms.push_str(&format!(" | {pat} => {body}"));
+                }
+                format!("(match {scrut} with{arms} end)")
+            }
+            Expr::MethodCall(m) if m.method == "to_string" && m.args.is_empty() => {
+                // Display: the identity on strings, `Config::display` for everything else
+                let r = self.expr(&m.receiver);
+                let key = place_name(&m.receiver).unwrap_or_default();
+                self.displayed(&key, r)
+            }
             Expr::MethodCall(m) => {
                 let name = m.method.to_string();
                 let r = self.expr(&m.receiver);
@@ -168,7 +193,116 @@ impl<'c> Tr<'c> {
                 }
             }
             Expr::Tuple(t) if t.elems.is_empty() => "tt".to_string(),
+            Expr::Lit(l) => match &l.lit {
+                syn::Lit::Str(st) => bytes_lit(&st.value()),
+                syn::Lit::Bool(b) => b.value.to_string(),
+                _ => self.miss(format!("literal `{}`", squash(e))),
+            },
+            Expr::Array(a) => {
+                let items: Vec<String> = a.elems.iter().map(|x| self.expr(x)).collect();
+                format!("[{}]", items.join("; "))
+            }
+            Expr::Macro(m) if m.mac.path.is_ident("format") => self.format_macro(&m.mac),
             _ => self.miss(format!("expression `{}`", squash(e))),
+        }
+    }
+
+    /// `format!("lit {name} lit {}", arg)` -> concatenation of byte strings (Display of strings is the identity;
+    /// other types through `Config::display`)
+    fn format_macro(&mut self, mac: &syn::Macro) -> String {
+        use syn::punctuated::Punctuated;
+        let Ok(args) = mac.parse_body_with(Punctuated::<Expr, syn::Token![,]>::parse_terminated) else {
+            return self.miss(format!("format! arguments `{}`", squash(&mac.tokens)));
+        };
+        let mut it = args.iter();
+        let Some(Expr::Lit(syn::ExprLit { lit: syn::Lit::Str(fs), .. })) = it.next() else {
+            return self.miss("format! without a literal format string".to_string());
+        };
+        let positional: Vec<&Expr> = it.collect();
+        let mut next_pos = 0;
+        let mut pieces: Vec<String> = vec![];
+        let mut lit = String::new();
+        let f = fs.value();
+        let mut chars = f.chars().peekable();
+        while let Some(c) = chars.next() {
+            match c {
+                '{' if chars.peek() == Some(&'{') => {
+                    chars.next();
+                    lit.push('{');
+                }
+                '}' if chars.peek() == Some(&'}') => {
+                    chars.next();
+                    lit.push('}');
+                }
+                '{' => {
+                    let mut name = String::new();
+                    for d in chars.by_ref() {
+                        if d == '}' {
+                            break;
+                        }
+                        name.push(d);
+                    }
+                    if !lit.is_empty() {
+                        pieces.push(bytes_lit(&lit));
+                        lit.clear();
+                    }
+                    if name.contains(':') {
+                        pieces.push(self.miss(format!("format specifier `{{{name}}}`")));
+                    } else if name.is_empty() {
+                        match positional.get(next_pos) {
+                            Some(a) => {
+                                let t = self.expr(a);
+                                let key = place_name(a).unwrap_or_default();
+                                pieces.push(self.displayed(&key, t));
+                            }
+                            None => pieces.push(self.miss("format! positional argument".to_string())),
+                        }
+                        next_pos += 1;
+                    } else {
+                        let v = sanitize(&name);
+                        pieces.push(self.displayed(&name, v));
+                    }
+                }
+                other => lit.push(other),
+            }
+        }
+        if !lit.is_empty() {
+            pieces.push(bytes_lit(&lit));
+        }
+        match pieces.len() {
+            0 => "(@nil N)".to_string(),
+            1 => pieces.remove(0),
+            _ => format!("({})", pieces.join(" ++ ")),
+        }
+    }
+
+    /// `Enum::Variant` / `Enum::Variant(x)` as a Gallina pattern
+    fn value_pattern(&mut self, p: &Pat) -> String {
+        let (name, binders): (String, Vec<String>) = match p {
+            Pat::Path(pp) => (pp.path.segments.last().map(|s| s.ident.to_string()).unwrap_or_default(), vec![]),
+            Pat::Ident(i) => (i.ident.to_string(), vec![]),
+            Pat::TupleStruct(ts) => {
+                let mut b = vec![];
+                for e in &ts.elems {
+                    pat_idents(e, &mut b);
+                }
+                (ts.path.segments.last().map(|s| s.ident.to_string()).unwrap_or_default(), b)
+            }
+            Pat::Wild(_) => ("_".to_string(), vec![]),
+            other => (squash(other), vec![]),
+        };
+        let con = match self.cfg.variants.iter().find(|(k, _)| *k == name) {
+            Some((_, g)) => (*g).to_string(),
+            None if name == "_" => name,
+            None => self.miss(format!("match pattern `{name}`")),
+        };
+        if binders.is_empty() { con } else { format!("{con} {}", binders.join(" ")) }
+    }
+
+    fn displayed(&self, key: &str, term: String) -> String {
+        match self.cfg.display.iter().find(|(k, _)| *k == key) {
+            Some((_, tpl)) => tpl.replace("{v}", &term),
+            None => term,
         }
     }
 
@@ -178,7 +312,11 @@ impl<'c> Tr<'c> {
             Expr::MethodCall(m) => {
                 let name = m.method.to_string();
                 if self.cfg.mutators.iter().any(|(k, _)| *k == name) {
-                    if let Some(p) = place_name(&m.receiver) {
+                    let mut root: &Expr = &m.receiver;
+                    while let Expr::MethodCall(inner) = root {
+                        root = &inner.receiver;
+                    }
+                    if let Some(p) = place_name(root) {
                         out.insert(p);
                     }
                 }
@@ -215,6 +353,7 @@ impl<'c> Tr<'c> {
                 }
             }
             Expr::Block(b) => self.assigned_block(&b.block, out),
+            Expr::ForLoop(fl) => self.assigned_block(&fl.body, out),
             Expr::Match(m) => {
                 // `match PLACE { Some(ref mut x) => .. }`: mutating the payload mutates the place
                 let payload = m.arms.iter().find_map(|a| some_binding(&a.pat));
@@ -300,7 +439,13 @@ impl<'c> Tr<'c> {
             }
             Stmt::Expr(e, semi) => {
                 // a trailing expression without `;` that is not a statement form is the block's value: only `()` accepted
-                if semi.is_none() && rest.is_empty() && !matches!(e, Expr::If(_) | Expr::Match(_) | Expr::MethodCall(_) | Expr::Block(_) | Expr::Try(_)) {
+                if semi.is_none() && rest.is_empty() && !matches!(e, Expr::If(_) | Expr::Match(_) | Expr::MethodCall(_) | Expr::Block(_) | Expr::Try(_) | Expr::ForLoop(_)) {
+                    // the function's value: a variable that is part of the requested result
+                    if let Some(v) = place_name(e) {
+                        if ret.contains(&v) {
+                            return tuple(ret);
+                        }
+                    }
                     if let Expr::Tuple(t) = e {
                         if t.elems.is_empty() {
                             return tuple(ret);
@@ -355,14 +500,56 @@ impl<'c> Tr<'c> {
                     let vs: Vec<String> = vars.iter().map(|v| (*v).to_string()).collect();
                     return Some((vs.clone(), format!("{g} {}", vs.join(" "))));
                 }
-                let tpl = self.cfg.mutators.iter().find(|(k, _)| *k == name).map(|(_, t)| *t);
-                match (tpl, place_name(&m.receiver)) {
-                    (Some(tpl), Some(p)) if scope.contains(&p) => {
-                        let args: Vec<String> = m.args.iter().map(|a| self.expr(a)).collect();
-                        Some((vec![p.clone()], fill(tpl, &p, &args)))
-                    }
-                    _ => Some((vec![], self.miss(format!("statement `{}`", squash(e))))),
+                // `place.m1(a).m2(b)`: builder-style chain of mutators on one place
+                let mut chain: Vec<&syn::ExprMethodCall> = vec![m];
+                let mut root: &Expr = &m.receiver;
+                while let Expr::MethodCall(inner) = root {
+                    chain.push(inner);
+                    root = &inner.receiver;
                 }
+                chain.reverse();
+                let Some(p) = place_name(root).filter(|p| scope.contains(p)) else {
+                    return Some((vec![], self.miss(format!("statement `{}`", squash(e)))));
+                };
+                let mut cur = p.clone();
+                for call in chain {
+                    let n = call.method.to_string();
+                    let Some(tpl) = self.cfg.mutators.iter().find(|(k, _)| *k == n).map(|(_, t)| *t) else {
+                        return Some((vec![], self.miss(format!("statement `{}`", squash(e)))));
+                    };
+                    let args: Vec<String> = call.args.iter().map(|a| self.expr(a)).collect();
+                    cur = fill(tpl, &cur, &args);
+                }
+                Some((vec![p], cur))
+            }
+            // `if let Some(x) = PLACE { .. }` (no else)
+            Expr::If(i) if matches!(&*i.cond, Expr::Let(_)) => {
+                let Expr::Let(l) = &*i.cond else { unreachable!() };
+                let w = self.writes(e, scope);
+                let (Some(x), true) = (some_binding(&l.pat), i.else_branch.is_none()) else {
+                    return Some((vec![], self.miss(format!("if-let `{}`", squash(&l.pat)))));
+                };
+                let scrut = self.expr(&l.expr);
+                scope.push(x.clone());
+                let t = self.stmts(&i.then_branch.stmts, scope, &w);
+                scope.pop();
+                Some((w.clone(), format!("(match {scrut} with\n| Some {x} =>\n{t}\n| None =>\n{}\nend)", tuple(&w))))
+            }
+            // `for PAT in ITER { .. }`: a left fold over the collection's entries in iteration order
+            Expr::ForLoop(fl) => {
+                let w = self.writes(e, scope);
+                let mut ids = vec![];
+                pat_idents(&fl.pat, &mut ids);
+                let iter = self.expr(&fl.expr);
+                for id in &ids {
+                    scope.push(id.clone());
+                }
+                let body = self.stmts(&fl.body.stmts, scope, &w);
+                for _ in &ids {
+                    scope.pop();
+                }
+                let item = pat_term(&fl.pat);
+                Some((w.clone(), format!("(fold_left (fun acc_ item_ =>\nlet '{} := (acc_, item_) in\n{body}) {iter} {})", pair(&tuple(&w), &item), tuple(&w))))
             }
             Expr::If(i) => {
                 let w = self.writes(e, scope);
@@ -464,6 +651,21 @@ fn collect_variants(p: &Pat, out: &mut Vec<String>) {
         Pat::Ident(i) => out.push(i.ident.to_string()),
         Pat::Reference(r) => collect_variants(&r.pat, out),
         other => out.push(squash(other)),
+    }
+}
+
+fn pair(a: &str, b: &str) -> String {
+    format!("({a}, {b})")
+}
+
+/// a `for` pattern as a Gallina pattern: `(a, b)` / `x`
+fn pat_term(p: &Pat) -> String {
+    match p {
+        Pat::Ident(i) => sanitize(&i.ident.to_string()),
+        Pat::Tuple(t) => format!("({})", t.elems.iter().map(pat_term).collect::<Vec<_>>().join(", ")),
+        Pat::Reference(r) => pat_term(&r.pat),
+        Pat::Paren(pp) => pat_term(&pp.pat),
+        _ => "_".to_string(),
     }
 }
 
